@@ -23,3 +23,5 @@ open RV.C09
 #print axioms duration_py_to_lit
 #print axioms retype_is_lex
 #print axioms copy_same
+#print axioms eq_python_value
+#print axioms eq_python_domain_tables
